@@ -11,7 +11,7 @@
 use std::mem::MaybeUninit;
 
 use srtla_core::connection::{SrtlaConnection, SrtlaIncoming};
-use srtla_send::sender::verif_hooks::{process_connection_events, SequenceTracker};
+use srtla_send::sender::verif_hooks::{process_connection_events_fut as process_connection_events, SequenceTracker};
 
 use crate::shellutil::*;
 use crate::util::*;
@@ -114,6 +114,9 @@ fn srtla_ack_dispatch<const IDX: usize>() {
 #[kani::unwind(6)]
 #[kani::stub(srtla_core::utils::now_ms, stub_now_ms)]
 #[kani::stub(alloc::fmt::format, no_format)]
+#[kani::stub(srtla_core::connection::SrtlaConnection::handle_srt_ack, no_srt_ack)]
+#[kani::stub(srtla_send::sender::packet_handler::attribute_nak, no_attribute_nak)]
+#[kani::stub(srtla_core::connection::RttTracker::update_estimate, no_rtt_update)]
 fn c02_srtla_ack_dispatch_idx0() {
     srtla_ack_dispatch::<0>();
 }
@@ -122,6 +125,9 @@ fn c02_srtla_ack_dispatch_idx0() {
 #[kani::unwind(6)]
 #[kani::stub(srtla_core::utils::now_ms, stub_now_ms)]
 #[kani::stub(alloc::fmt::format, no_format)]
+#[kani::stub(srtla_core::connection::SrtlaConnection::handle_srt_ack, no_srt_ack)]
+#[kani::stub(srtla_send::sender::packet_handler::attribute_nak, no_attribute_nak)]
+#[kani::stub(srtla_core::connection::RttTracker::update_estimate, no_rtt_update)]
 fn c02_srtla_ack_dispatch_idx1() {
     srtla_ack_dispatch::<1>();
 }
